@@ -25,6 +25,9 @@ def gen(rnd, kind):
             cmds += [("beginning-of-history",)] + [("next-history",)] * (len(hist) + 2)
         else:
             cmds += [("previous-history",)] * k + [("next-history",)] * (k + rnd.randrange(0, 3))
+    elif kind == "nav":         # any mix of the four navigation commands, judged at every step against the abstract walk
+        for _ in range(rnd.randrange(1, 12)):
+            cmds.append((rnd.choice(NAV + ["previous-history", "next-history", "previous-history"]),))
     elif kind == "search":      # (c)
         for _ in range(rnd.randrange(1, 7)):
             cmds.append((rnd.choice(SEARCH + ["history-search-backward"]),))
@@ -58,7 +61,7 @@ def check(rep, tier, seed):
         return
     info, broken = vlib.proof_step(rep, "C09")
     n = 500 if tier == "quick" else 15000
-    sess = [gen(rnd, rnd.choice(["walk", "updown", "search", "search", "mixed", "mixed", "isearch"])) for _ in range(n)]
+    sess = [gen(rnd, rnd.choice(["walk", "updown", "nav", "nav", "search", "search", "mixed", "mixed", "isearch"])) for _ in range(n)]
     modelled = E.modelled_names()
     for s in sess:
         s["modelled"] = all(c[0] in modelled for c in s["cmds"])
@@ -97,6 +100,19 @@ def check(rep, tier, seed):
                     if lines[nt + k] != want:
                         fails.append("(a) after %d previous-history the buffer is %r, the entry is %r" % (k, lines[nt + k], want))
                         break
+            if s["kind"] == "nav" and hist:
+                # the abstract walk of the theorem (WalkP.astep): 0 = the line being entered, k = the k-th newest entry
+                pos, nh = 0, len(hist)
+                for k, nm in enumerate(names[nt:]):
+                    step = {"previous-history": 1, "next-history": -1, "beginning-of-history": nh, "end-of-history": 1 - nh}[nm]
+                    if step != 0:
+                        pos = max(0, min(nh, pos + step))
+                    want = inprog if pos == 0 else hist[nh - pos]
+                    if lines[nt + k + 1] != want:
+                        fails.append("(a)/(b) after %s the buffer is %r; the walk is at position %d (0 = the line being entered): %r"
+                                     % (" ".join(names[nt:nt + k + 1]), lines[nt + k + 1], pos, want))
+                        break
+                nontriv.add((tuple(hist), inprog, tuple(names[nt:])))
             if s["kind"] == "updown" and hist:
                 if lines[-1] != inprog:
                     fails.append("(b) walking back down ends with %r, the text being typed was %r" % (lines[-1], inprog))
@@ -125,7 +141,7 @@ def check(rep, tier, seed):
         "evaluations": len(sess),
         "distinct_nontrivial": len(nontriv),
         "rule": "sessions typed into the real Readline over a pty with a bound in-memory history (empty, one entry, duplicates, multi-line, "
-                "multi-byte, entries that are prefixes of each other): an in-progress text, then walks (previous/next/beginning/end-of-history), "
+                "multi-byte, entries that are prefixes of each other): an in-progress text, then walks (previous/next/beginning/end-of-history; kind nav: any mix, every step judged against the abstract walk of the theorem), "
                 "up-then-down walks, prefix searches (history-search-backward/forward), and mixed sequences with substring search, "
                 "up/down-line-or-history, infer-next-history, fetch-history; oracle: entries in order, in-progress text restored, search "
                 "results are the typed text or an entry with that prefix, no failure at either end, source unchanged; "
